@@ -515,6 +515,19 @@ func checkCallbackContext(e *Env, f *ssa.Function) {
 				isDbg = true // nil test of an optional callback
 			}
 			if !ok && !isDbg {
+				// captured by a function literal that is itself handed to another operation as ITS callback and calls the parameter
+				// there (StoreWithFunc = ReplaceWithFunc with a literal that calls createFunc): it runs in that operation's context
+				if fwd := capturedForwards(p, ref); len(fwd) > 0 {
+					for _, c := range fwd {
+						n++
+						callee := core.CalleeName(c)
+						got, known := callbackLock[callee]
+						compatible := known && (got == want || want == "any" || (want == "r" && got == "w"))
+						e.R.Check(compatible, rule, construct+" via "+shortType(callee), e.pos(c), "called from a literal that "+callee+" runs in the same lock context ("+got+")",
+							fmt.Sprintf("the callback is called from a literal handed to %s, which runs it in lock context %q, but %s documents %q", callee, got, name, want))
+					}
+					continue
+				}
 				e.R.Undecided(rule, construct+":escapes", e.pos(ref), "the callback escapes (stored or captured) instead of being called in the method's own critical section")
 				continue
 			}
@@ -556,6 +569,20 @@ func checkCacheOp(e *Env, f *ssa.Function) {
 			e.R.Ok(rule, construct, e.fpos(f), "one atomic map operation: "+n)
 		}
 	default:
+		// a sweep over a snapshot: one CopyData outside any loop, every other operation inside the loop over it (each constrained
+		// by C14.R4: compare-and-act on the value the snapshot held)
+		nSnap, rest := 0, true
+		for _, c := range calls {
+			if core.CalleeName(c) == "pkg/sync.Map.CopyData" && !inLoop(c.(ssa.Instruction)) {
+				nSnap++
+			} else if core.CalleeName(c) != "pkg/sync.Map.ReplaceWithFunc" || (!inLoop(c.(ssa.Instruction)) && c.Parent() == f) {
+				rest = false
+			}
+		}
+		if nSnap == 1 && rest {
+			e.R.Ok(rule, construct, e.fpos(f), "sweep over a snapshot (CopyData); the per-key operations are constrained by C14.R4")
+			return
+		}
 		e.R.Fail(rule, construct, e.fpos(f), fmt.Sprintf("check-then-act: %d separate map operations (%s) compose this cache operation", len(calls), core.CalleeName(calls[0])))
 	}
 }
@@ -613,18 +640,78 @@ func checkRangeCallbacks(e *Env, rule string, fns []*ssa.Function, arm bool) {
 				e.R.Ok(rule, construct, e.pos(c.(ssa.Instruction)), fmt.Sprintf("%d mutation(s) inside the callback, each a compare-and-act on the value Range handed out", nMut))
 			}
 		}
+		// the same sweep written over a snapshot: `for k, v := range m.CopyData() { … m.ReplaceWithFunc(k, compare-and-act on v) }`
+		for _, c := range core.CallsNamed(f, "pkg/sync.Map.CopyData") {
+			snap, isCall := c.(*ssa.Call)
+			if !isCall {
+				continue
+			}
+			container := core.AccessPath(core.Arg(c, 0))
+			var stale ssa.Value
+			for _, u := range core.Referrers(snap) {
+				rg, isRg := u.(*ssa.Range)
+				if !isRg {
+					continue
+				}
+				for _, uu := range core.Referrers(rg) {
+					if nx, isNx := uu.(*ssa.Next); isNx {
+						for _, u3 := range core.Referrers(nx) {
+							if ex, isEx := u3.(*ssa.Extract); isEx && ex.Index == 2 {
+								stale = ex
+							}
+						}
+					}
+				}
+			}
+			if stale == nil {
+				continue
+			}
+			name := core.FnName(f)
+			construct := name + ":Range-callback"
+			bad, nMut := "", 0
+			for _, g := range core.WithAnon(f) {
+				for _, mc := range core.Calls(g, func(n string, _ ssa.CallInstruction) bool { return strings.HasPrefix(n, "pkg/sync.Map.") }) {
+					n := core.CalleeName(mc)
+					if mc == c || core.AccessPath(core.Arg(mc, 0)) != container {
+						continue
+					}
+					if mapMutators[n] {
+						bad = fmt.Sprintf("%s at %s acts blindly on a key whose value was read from a snapshot", shortType(n), e.pos(mc.(ssa.Instruction)))
+					}
+					if n == "pkg/sync.Map.ReplaceWithFunc" {
+						nMut++
+						inner, shift := core.MethodBehind(core.FuncArgClosure(core.Arg(mc, 2)))
+						if inner == nil {
+							bad = "ReplaceWithFunc callback is not a function literal"
+							continue
+						}
+						if why := compareStyle(inner, shift, stale); why != "" {
+							bad = fmt.Sprintf("ReplaceWithFunc at %s is not compare-and-act on the inspected value: %s", e.pos(mc.(ssa.Instruction)), why)
+						}
+					}
+				}
+			}
+			if !arm {
+				continue
+			}
+			if bad != "" {
+				e.R.Fail(rule, construct, e.pos(c.(ssa.Instruction)), bad)
+			} else {
+				e.R.Ok(rule, construct, e.pos(c.(ssa.Instruction)), fmt.Sprintf("%d mutation(s) in the sweep over a snapshot, each a compare-and-act on the value the snapshot held", nMut))
+			}
+		}
 	}
 }
 
 // compareStyle: every return of the ReplaceWithFunc callback that changes the map (result 0 is not the old value, or delete may be
 // true while the old value exists) is reachable only through the true edge of oldValue == stale.
 // Returns "" if so, else a reason.
-func compareStyle(inner *ssa.Function, shift int, stale *ssa.Parameter) string {
+func compareStyle(inner *ssa.Function, shift int, stale ssa.Value) string {
 	if len(inner.Params) < 2+shift {
 		return "unexpected callback signature"
 	}
 	oldV, oldLoaded := inner.Params[shift], inner.Params[shift+1]
-	isStale := func(v ssa.Value) bool { return core.Resolve(v) == ssa.Value(stale) }
+	isStale := func(v ssa.Value) bool { return core.Resolve(v) == stale }
 	// truth table of the callback over {the key is present, the value found is the one inspected}; every other test is free
 	bf := &core.BoolFn{Fn: inner, AtomOf: func(v ssa.Value) (string, bool, bool) {
 		if v == ssa.Value(oldLoaded) {
@@ -768,26 +855,55 @@ func checkExpiryPredicateAs(e *Env, rule string) {
 			e.R.Fail(rule, "pkg/cache.Cache.LoadOrStore:replaces-expired-entry", e.fpos(f), "Cache.LoadOrStore does not consult the expiry of the existing element (no ReplaceWithFunc callback testing IsExpired): an expired entry blocks its key until a sweep removes it, while Load already hides it")
 		}
 	}
-	// (c) Cache.Load: a non-nil result only on the not-expired edge
+	// (c) Cache.Load: truth table over {key present, element expired}: an element is handed back exactly when present and not expired
 	if f := e.fn(rule, "pkg/cache.Cache.Load"); f != nil {
-		ok := true
-		n := 0
-		for _, ret := range core.ReturnsOf(f) {
-			if core.IsNilConst(core.RetVal(ret, 0)) {
+		var load *ssa.Call
+		for _, c := range core.CallsNamed(f, "pkg/sync.Map.Load") {
+			load, _ = c.(*ssa.Call)
+		}
+		bf := &core.BoolFn{Fn: f, AtomOf: func(v ssa.Value) (string, bool, bool) {
+			if ex, ok := core.Resolve(v).(*ssa.Extract); ok && load != nil && ex.Tuple == ssa.Value(load) && ex.Index == 1 {
+				return "present", false, true
+			}
+			if ic, ok := core.CondCall(v, "pkg/cache.Element.IsExpired"); ok {
+				if ex, isEx := core.Resolve(core.Unwrap(core.Arg(ic, 0))).(*ssa.Extract); isEx && load != nil && ex.Tuple == ssa.Value(load) && ex.Index == 0 {
+					return "expired", false, true
+				}
+			}
+			return "", false, false
+		}}
+		rows, err := bf.Table()
+		key := "pkg/cache.Cache.Load:hides-expired"
+		bad, und := "", ""
+		if err != nil {
+			und = err.Error()
+		}
+		for _, r := range rows {
+			if r.Unknown != "" {
+				und = "row [" + core.AssignString(r.Assign) + "]: " + r.Unknown
 				continue
 			}
-			n++
-			_, g := core.GuardedBy(ret, func(cond ssa.Value) core.CondMatch {
-				if _, is := core.CondCall(cond, "pkg/cache.Element.IsExpired"); is {
-					return core.CondMatch{Match: true, Branch: false}
-				}
-				return core.CondMatch{}
-			})
-			if !g {
-				ok = false
+			if len(r.RetVals) != 1 {
+				und = "unexpected results"
+				continue
+			}
+			hands := !core.IsNilConst(r.RetVals[0])
+			want := r.Assign["present"] && !r.Assign["expired"]
+			if hands && !want {
+				bad = "for [" + core.AssignString(r.Assign) + "] an element is returned"
+			}
+			if !hands && want {
+				bad = "for [" + core.AssignString(r.Assign) + "] a live element is hidden"
 			}
 		}
-		e.R.Check(ok && n > 0, rule, "pkg/cache.Cache.Load:hides-expired", e.fpos(f), "an element is returned only on the not-expired edge", "an element can be returned without the expiry test")
+		switch {
+		case load == nil:
+			e.R.Undecided(rule, key, e.fpos(f), "no Map.Load in Cache.Load")
+		case und != "" && bad == "":
+			e.R.Undecided(rule, key, e.fpos(f), und)
+		default:
+			e.R.Check(bad == "", rule, key, e.fpos(f), "an element is returned exactly when the key is present and the element has not expired (truth table)", "an element can be returned without the expiry test: "+bad)
+		}
 	}
 	// (d) CheckExpirations: the removal is control-dependent on IsExpired(now) of the inspected element with the sweep's own `now`
 	if f := e.fn(rule, "pkg/cache.Cache.CheckExpirations"); f != nil && len(f.Params) == 2 {
@@ -842,4 +958,82 @@ func isDeadlineLoad(v ssa.Value) bool {
 	}
 	_, fl, ok := core.FieldOf(core.Arg(c, 0))
 	return ok && fl == "ValidUntil"
+}
+
+// capturedForwards: ref captures parameter p (by value, or through the variable cell it was spilled to) in function literals; for
+// each literal that calls p and is passed as an argument to a static call, that call. Empty when p is used in any other way there.
+func capturedForwards(p *ssa.Parameter, ref ssa.Instruction) []*ssa.Call {
+	var mks []*ssa.MakeClosure
+	var idxs []int
+	collect := func(v ssa.Value) bool {
+		for _, u := range core.Referrers(v) {
+			switch x := u.(type) {
+			case *ssa.MakeClosure:
+				for bi, b := range x.Bindings {
+					if b == v {
+						mks = append(mks, x)
+						idxs = append(idxs, bi)
+					}
+				}
+			case *ssa.Store, *ssa.DebugRef:
+			default:
+				return false
+			}
+		}
+		return true
+	}
+	switch x := ref.(type) {
+	case *ssa.MakeClosure:
+		if !collect(p) {
+			return nil
+		}
+	case *ssa.Store:
+		cell, ok := x.Addr.(*ssa.Alloc)
+		if !ok || x.Val != ssa.Value(p) || !collect(cell) {
+			return nil
+		}
+	default:
+		return nil
+	}
+	var out []*ssa.Call
+	for k, mk := range mks {
+		g, ok := mk.Fn.(*ssa.Function)
+		if !ok || idxs[k] >= len(g.FreeVars) {
+			return nil
+		}
+		// inside the literal the captured value is only called
+		fv := g.FreeVars[idxs[k]]
+		called := false
+		var uses func(v ssa.Value) bool
+		uses = func(v ssa.Value) bool {
+			for _, u := range core.Referrers(v) {
+				switch y := u.(type) {
+				case *ssa.UnOp:
+					if y.Op != token.MUL || !uses(y) {
+						return false
+					}
+				case *ssa.Call:
+					if y.Call.Value != v {
+						return false
+					}
+					called = true
+				case *ssa.DebugRef:
+				default:
+					return false
+				}
+			}
+			return true
+		}
+		if !uses(fv) || !called {
+			return nil
+		}
+		for _, u := range core.Referrers(mk) {
+			c, isCall := u.(*ssa.Call)
+			if !isCall || c.Call.StaticCallee() == nil {
+				return nil
+			}
+			out = append(out, c)
+		}
+	}
+	return out
 }
